@@ -177,6 +177,8 @@ func shapeReason(log string) string {
 		{"nested level", "nesting-cap"},
 		{"unable to resolve type URL", "undecodable-any"},
 		{"wrong number of signers", "signer-count"},
+		{"missing fee", "fee-missing"},
+		{"tx parse error", "undecodable-any"},
 		{"must prove account is external owned account", "vauth-proof"},
 	} {
 		if strings.Contains(log, p[0]) {
@@ -388,8 +390,11 @@ func (w *world) judge(t *tcase, ob *vh.ObservedBlock, i int, fail func(string, *
 			run.Nontrivial("reject|" + t.key())
 			run.Distinct("must_reject_classes", v.Class())
 		}
-		// (V2) traces of an inner handler / of the other lane in the delivered block
-		w.handlerTraces(t, pre, post, diff, tdiff, fail, wit)
+		// (V2) a delivered must-reject transaction that "failed" but left traces of an inner handler or
+		// of the other lane (an accepted one is already reported by V1 with its write set as witness)
+		if t.Code[mDeliver] != 0 {
+			w.handlerTraces(t, pre, post, diff, tdiff, fail, wit)
+		}
 		if t.Idx%97 == 0 {
 			run.Sample(map[string]any{"family": t.Family, "features": t.Feats, "depth": t.Depth, "reasons": v.Reasons,
 				"check": t.Log[mCheck], "deliver_code": t.Code[mDeliver], "writes": len(diff)})
